@@ -56,9 +56,17 @@ def run(ctx):
             _, d0 = W.analyze(doc0, a)
             d['unresolved'] = d['unresolved'] + ['first-build: ' + x for x in d0['unresolved']]
             first_digest = hashlib.sha256(doc0).hexdigest()
+            # serving histories: however the shared Wsdl11 object came to hold its document, what ?wsdl returns is THE document
+            hist_digests = []
+            for hname, hdoc in W.histories(a):
+                _, dh = W.analyze(hdoc, a)
+                d['unresolved'] = d['unresolved'] + ['%s: %s' % (hname, x) for x in dh['unresolved']]
+                if dh['nops'] != d['nops']:
+                    d['unresolved'] = d['unresolved'] + ['%s: %d portType operations' % (hname, dh['nops'])]
+                hist_digests.append(hashlib.sha256(hdoc).hexdigest())
         except Exception as e:
             per, d, z = {}, {'wellformed': False, 'unresolved': ['build: %s: %s' % (type(e).__name__, e)], 'nops': 0}, {}
-        d['digests'] = [dg[2 * i] for dg in digs] + [dg[2 * i + 1] for dg in digs] + ([first_digest] if first_digest else [])
+        d['digests'] = [dg[2 * i] for dg in digs] + [dg[2 * i + 1] for dg in digs] + ([first_digest] + hist_digests if first_digest else [])
         recs.append({'what': 'doc', 'a': a, 'd': d})
         for s in a['services']:
             for m in s['methods']:
